@@ -124,6 +124,7 @@ type Tmpl struct {
 	NoKeyUsage  bool
 	CRLURLs     []string
 	OCSPURLs    []string
+	Serial      *big.Int // nil: a fresh serial number
 }
 
 // DefaultWindow is the validity used when a template leaves the window zero.
@@ -140,8 +141,12 @@ func Make(t Tmpl, key crypto.Signer, issuer *Cert) *Cert {
 	if t.NotBefore.IsZero() && t.NotAfter.IsZero() {
 		t.NotBefore, t.NotAfter = DefaultWindow()
 	}
+	serialNo := t.Serial
+	if serialNo == nil {
+		serialNo = nextSerial()
+	}
 	c := &x509.Certificate{
-		SerialNumber:          nextSerial(),
+		SerialNumber:          serialNo,
 		Subject:               t.Subject,
 		NotBefore:             t.NotBefore,
 		NotAfter:              t.NotAfter,
